@@ -1,6 +1,9 @@
 package wagen
 
-import "fmt"
+import (
+	"fmt"
+	"strings"
+)
 
 // stTypeSwitch: an empty-interface value holding a scalar or a struct pointer,
 // dispatched by a type switch (binding form) and by comma-ok assertions.
@@ -156,4 +159,56 @@ func (g *G) stSliceSpread() Tri {
 		fmt.Sprintf("%s = append(%s, %s...)", dst.Name, dst.Name, src[Wa]),
 		fmt.Sprintf("%s = 追加(%s, %s...)", dst.Name, dst.Name, src[Wz]),
 		fmt.Sprintf("%s = append(%s, %s...)", dst.Name, dst.Name, src[Go])}
+}
+
+// stAnonStruct: a value of an anonymous struct type (as a value, behind a pointer
+// on the heap, or boxed in an interface and asserted back). 凹中文 has no
+// anonymous struct types: the .wz rendering declares a named struct with the
+// same fields, which prints the same.
+func (g *G) stAnonStruct() Tri {
+	g.feat("anon-struct")
+	tn := "An" + g.freshVar()
+	nf := g.n(1, 3, "anonFields")
+	var fts []*Type
+	var vals []Tri
+	var decl [3][]string
+	for i := 0; i < nf; i++ {
+		ft := scalarTypes[g.n(0, len(scalarTypes)-1, "anonFT")]
+		fts = append(fts, ft)
+		name := "f" + string(rune('0'+i))
+		tt := ft.Tri()
+		decl[Wa] = append(decl[Wa], name+": "+tt[Wa])
+		decl[Wz] = append(decl[Wz], "\t"+name+": "+tt[Wz])
+		decl[Go] = append(decl[Go], name+" "+tt[Go])
+		e := g.gen(ft, 2).E
+		if ft.IsNum() {
+			e = tf("%s(%s)", ft.Tri(), e)
+		}
+		vals = append(vals, tf("%s: %s", name, e))
+	}
+	g.helper("type:"+tn, Tri{"", "结构·" + tn + ":\n" + strings.Join(decl[Wz], "\n") + "\n完毕\n", ""})
+	ty := Tri{"struct{ " + strings.Join(decl[Wa], "; ") + " }", tn, "struct{ " + strings.Join(decl[Go], "; ") + " }"}
+	lit := tf("%s{%s}", ty, join(vals, ", "))
+	v := g.freshVar()
+	var prints []Tri
+	form := g.n(0, 2, "anonForm")
+	var head Tri
+	switch form {
+	case 0:
+		head = tf("%s := %s", v, lit)
+	case 1:
+		g.feat("anon-struct-heap")
+		head = tf("%s := &%s", v, lit)
+	default:
+		g.feat("anon-struct-boxed")
+		iv, ok := g.freshVar(), g.freshVar()
+		head = lines(
+			Tri{iv + ": interface{} = " + lit[Wa], "设定 " + iv + ": 皮囊 = " + lit[Wz], "var " + iv + " interface{} = " + lit[Go]},
+			Tri{v + ", " + ok + " := " + iv + ".(" + ty[Wa] + ")", v + ", " + ok + " := " + iv + "·(" + ty[Wz] + ")", v + ", " + ok + " := " + iv + ".(" + ty[Go] + ")"},
+			printCall(same(quote("anon ok")), same(ok)))
+	}
+	for i := range fts {
+		prints = append(prints, printCall(same(quote("anon f"+string(rune('0'+i)))), sel(same(v), "f"+string(rune('0'+i)))))
+	}
+	return lines(append([]Tri{head}, prints...)...)
 }
